@@ -5,7 +5,7 @@ use crate::rng::Rng;
 use crate::ty::*;
 
 pub struct GenCtx {
-    pub tz_names: Vec<String>,
+    pub tz_names: std::sync::Arc<Vec<String>>,
     /// only values the format can encode (BMP chars …)
     pub encodable: bool,
     pub max_depth: usize,
@@ -18,7 +18,7 @@ pub struct GenCtx {
 impl Default for GenCtx {
     fn default() -> Self {
         GenCtx {
-            tz_names: vec![
+            tz_names: std::sync::Arc::new(vec![
                 "UTC".into(),
                 "Europe/Budapest".into(),
                 "America/New_York".into(),
@@ -26,7 +26,7 @@ impl Default for GenCtx {
                 "Pacific/Kiritimati".into(),
                 "Etc/GMT+12".into(),
                 "Australia/Lord_Howe".into(),
-            ],
+            ]),
             encodable: true,
             max_depth: 5,
             max_len: 6,
@@ -374,7 +374,7 @@ fn gen(ty: &Ty, rng: &mut Rng, ctx: &GenCtx, depth: usize) -> Val {
             5 => 64,
             _ => rng.range(-86_399, 86_399),
         } as i128),
-        Ty::Tz => Val::Str(rng.pick(&ctx.tz_names).clone()),
+        Ty::Tz => Val::Str(rng.pick(&ctx.tz_names[..]).clone()),
         Ty::DateTimeUtc => {
             let s: i64 = match rng.below(10) {
                 0 => UTC_TS_MIN,
